@@ -12,5 +12,6 @@ assert os.path.realpath(votekit.__file__).startswith(src), votekit.__file__
 import votekit.ballot_generator, votekit.elections
 print("votekit from", votekit.__file__, "numpy", numpy.__version__)
 PY
-python3-vt -c "import jsonschema; print('jsonschema', jsonschema.__version__)"
+python3-vt -c "import jsonschema" && echo "jsonschema ok"
+./vk selftest | tail -1
 echo setup ok
